@@ -318,6 +318,23 @@ def rule_chain(ctx: Ctx) -> None:
 def _dominance_summary(fn) -> tuple[str, str] | None:
     """Recognise the flag-loop idiom `∀k a[k] >= b[k] ∧ ∃k a[k] > b[k]`; returns (A, B) meaning "A dominates B", or None."""
     body = [s for s in fn.node.body if not (isinstance(s, ast.Expr) and isinstance(s.value, ast.Constant))]
+    if len(body) == 4:
+        # early-return form: no `all` flag — `if A[k] < B[k]: return False` inside the loop, `return any_flag` after it
+        keys, f2, loop, ret = body
+        if not (isinstance(f2, ast.Assign) and isinstance(f2.value, ast.Constant) and f2.value.value is False and isinstance(loop, ast.For) and len(loop.body) == 4
+                and isinstance(ret, ast.Return) and path_of(ret.value) == path_of(f2.targets[0])):
+            return None
+        i1 = loop.body[2]
+        if not (isinstance(i1, ast.If) and not i1.orelse and len(i1.body) == 1 and isinstance(i1.body[0], ast.Return) and isinstance(i1.body[0].value, ast.Constant) and i1.body[0].value.value is False):
+            return None
+        # rewrite into the flag form and recognise that
+        import copy
+        flag = ast.Name(id="__all", ctx=ast.Store())
+        f1 = ast.Assign(targets=[flag], value=ast.Constant(True))
+        loop2 = copy.deepcopy(loop)
+        loop2.body[2] = ast.If(test=loop2.body[2].test, body=[ast.Assign(targets=[ast.Name(id="__all", ctx=ast.Store())], value=ast.Constant(False)), ast.Break()], orelse=[])
+        ret2 = ast.Return(value=ast.BoolOp(op=ast.And(), values=[ast.Name(id="__all", ctx=ast.Load()), ast.Name(id=path_of(f2.targets[0]), ctx=ast.Load())]))
+        body = [keys, f1, f2, loop2, ret2]
     if len(body) != 5:
         return None
     keys, f1, f2, loop, ret = body
